@@ -151,6 +151,15 @@ CHECKS = {
    note="11 templates x 7 argument types; call-site scope leakage is only exercised through the library variants (no same-named types in the importing module yet).",
    technique="TLA+ executable semantics of the specialised program + unification specification, TLC trace validation of both program variants",
    ref="§4 C15"),
+ "C16": dict(
+   text="Determinism.tla makes the choice points explicit: the iteration order of a module's public-declaration map followed by the position sort with its comparator and Go's insertion "
+        "sort; TLC enumerates every population of <=3 declaration positions and every iteration order and reports the populations whose processing order depends on the choice (13 for "
+        "the pinned comparator 'line< or column<', none for the lexicographic one). Each such population is materialised (module + importer with clashing names) and, like all seed "
+        "programs, import arrangements and a seeded sample of mutants, compiled N times in one process and K times in fresh processes; TLC validates that all observations (verdict, "
+        "diagnostics in order with texts, resolved calls, module flags; exit status, stderr, behaviour of the executable) are equal and that the first reported clash is the first in source order.",
+   note="Go cannot be told which map order to use, so repetition samples the orders (N = 20 / K = 6 quick, 200 / 30 thorough). The text of the emitted IR is not compared (only behaviour).",
+   technique="TLA+ model of the nondeterministic choice points checked by TLC over all orders + TLC trace validation of repeated real compilations",
+   ref="§4 C16"),
 }
 PENDING = {}
 
